@@ -267,7 +267,8 @@ func ruleLK11(c *Ctx) {
 
 // pathCounter: the largest number of primitive executions on one path through f (calls into module functions count
 // what they contain; a primitive in a loop is unbounded).
-func (c *Ctx) pathCounter(prim func(call ssa.CallInstruction) (int, string)) func(f *ssa.Function) *commitSummary {
+func (c *Ctx) pathCounter(prim func(call ssa.CallInstruction) (int, string), skipLocked ...bool) func(f *ssa.Function) *commitSummary {
+	skipLock := len(skipLocked) > 0 && skipLocked[0]
 	memo := map[*ssa.Function]*commitSummary{}
 	onStack := map[*ssa.Function]bool{}
 	var summ func(f *ssa.Function) *commitSummary
@@ -293,6 +294,9 @@ func (c *Ctx) pathCounter(prim func(call ssa.CallInstruction) (int, string)) fun
 					cal := calleeOf(call.Common())
 					switch {
 					case cal != nil && c.F.isLockFn(cal):
+						if skipLock {
+							break // what happens inside the lock section is not counted
+						}
 						for _, ls := range c.F.LockSites {
 							if ls.Call == call && ls.Callback != nil {
 								n, what = summ(ls.Callback).max, "withLock{"+c.Name(ls.Callback)+"}"
@@ -367,6 +371,12 @@ func ruleRD7(c *Ctx) {
 		}
 		return 0, ""
 	})
+	outside := c.pathCounter(func(call ssa.CallInstruction) (int, string) {
+		if cal := calleeOf(call.Common()); cal == rd {
+			return 1, c.Name(rd)
+		}
+		return 0, ""
+	}, true)
 	regs := c.cobraRegistrations()
 	// hooks run in addition to every handler
 	hookMax := 0
@@ -394,7 +404,18 @@ func ruleRD7(c *Ctx) {
 			}
 		}
 		if locks {
-			continue // a mutating command: its one read happens inside the lock section (LK4, LK8)
+			// a mutating command reads the log inside its lock section and nowhere else: a decision taken from a snapshot
+			// read before the lock (is the task free? does the id exist?) can be stale by the time the lock is held,
+			// and the locked step does not know it was taken
+			so := outside(r.Fn)
+			both := c.readAndLockOnOnePath(r.Fn, rd)
+			if so.max > 0 || len(so.sites) > 0 {
+				n++
+			}
+			if so.max > 0 && both {
+				c.bad(c.Name(r.Fn), "no-read-outside-the-lock", c.FnPos(r.Fn), "this command takes the lock, yet it also reads the log outside the lock section ("+strings.Join(so.sites, "; ")+"): what it decides from that snapshot can be overtaken by another writer before its own locked step runs - the outcome of two such commands has no serial equivalent")
+			}
+			continue
 		}
 		s := loads(r.Fn)
 		if s.max == 0 && hookMax == 0 {
@@ -519,6 +540,30 @@ func ruleOU18(c *Ctx) {
 				fmt.Sprintf("the option is the flag's value, copied (%d steps)", tf.steps),
 				"the value stored into GlobalOptions."+name+" is not what the user gave: "+strings.Join(uniq(tf.problems), "; ")+" - the core resolves, validates and records the rewritten value")
 		})
+	}
+	// the arguments cobra parses are the process's arguments: a pass over argv before parsing cannot tell an id from a
+	// title that happens to look like one
+	for _, f := range c.Fns {
+		if !c.InModule(f) || f.Blocks == nil {
+			continue
+		}
+		k := 0
+		for _, call := range callsIn(f) {
+			if calleeFullName(call.Common()) != "(*github.com/spf13/cobra.Command).SetArgs" || len(call.Common().Args) < 2 {
+				continue
+			}
+			k++
+			n++
+			verbatim := false
+			if sl, ok := strip(call.Common().Args[1]).(*ssa.Slice); ok {
+				verbatim = isGlobalLoad(sl.X, "Args")
+			}
+			if isGlobalLoad(call.Common().Args[1], "Args") {
+				verbatim = true
+			}
+			c.check(verbatim, c.Name(f), fmt.Sprintf("argv-verbatim set#%d", k), c.Pos(call.Pos()), "the command tree parses os.Args as given",
+				"the argument list handed to cobra is computed from os.Args ("+c.canon(call.Common().Args[1])+"): a rewrite applied before flags are parsed also hits the values of --title, --body, --dir and --result-path, which are then recorded or resolved in a form the user did not write")
+		}
 	}
 	if n == 0 {
 		c.unk("<module>", "option-stores", "-", "no store into a string field of GlobalOptions found (options struct not recognisable)")
@@ -827,4 +872,86 @@ func (c *Ctx) readUse(call *ssa.Call) string {
 		walk(v, 0)
 	}
 	return bad
+}
+
+// readAndLockOnOnePath: some path through f (following module calls) both reads the log outside a lock section and
+// takes the lock. Each function is summarised by the set of (read, locked) outcomes its paths can have.
+func (c *Ctx) readAndLockOnOnePath(root, rd *ssa.Function) bool {
+	memo := map[*ssa.Function]uint8{}
+	onStack := map[*ssa.Function]bool{}
+	// a state is 2 bits (read<<1 | locked); a set of states is a 4-bit mask
+	join := func(set uint8, outcome uint8) uint8 {
+		var out uint8
+		for s := uint8(0); s < 4; s++ {
+			if set&(1<<s) == 0 {
+				continue
+			}
+			for o := uint8(0); o < 4; o++ {
+				if outcome&(1<<o) != 0 {
+					out |= 1 << (s | o)
+				}
+			}
+		}
+		return out
+	}
+	var summ func(f *ssa.Function) uint8
+	summ = func(f *ssa.Function) uint8 {
+		if m, ok := memo[f]; ok {
+			return m
+		}
+		if onStack[f] || f.Blocks == nil {
+			return 1 // (false,false)
+		}
+		onStack[f] = true
+		defer func() { onStack[f] = false }()
+		in := make([]uint8, len(f.Blocks))
+		in[0] = 1
+		var result uint8
+		for changed, iter := true, 0; changed && iter < 64; iter++ {
+			changed = false
+			result = 0
+			for _, b := range f.Blocks {
+				cur := in[b.Index]
+				if cur == 0 {
+					continue
+				}
+				for _, ins := range b.Instrs {
+					call, ok := ins.(ssa.CallInstruction)
+					if !ok {
+						continue
+					}
+					cal := calleeOf(call.Common())
+					switch {
+					case cal == rd:
+						cur = join(cur, 1<<2) // (read)
+					case cal != nil && c.F.isLockFn(cal):
+						cur = join(cur, 1<<1) // (locked); what the callback reads is inside the section
+					case cal != nil && c.InModule(cal):
+						cur = join(cur, summ(cal))
+					default:
+						if _, isParam := call.Common().Value.(*ssa.Parameter); !isParam && cal == nil && !call.Common().IsInvoke() {
+							if mc, ok := resolve(call.Common().Value).(*ssa.MakeClosure); ok {
+								cur = join(cur, summ(mc.Fn.(*ssa.Function)))
+							}
+						}
+					}
+				}
+				if len(b.Succs) == 0 {
+					result |= cur
+				}
+				for _, s := range b.Succs {
+					if in[s.Index]|cur != in[s.Index] {
+						in[s.Index] |= cur
+						changed = true
+					}
+				}
+			}
+		}
+		if result == 0 {
+			result = 1
+		}
+		memo[f] = result
+		return result
+	}
+	return summ(root)&(1<<3) != 0
 }
